@@ -400,6 +400,47 @@ def judge16 (c : Case) : List String × Nat :=
   | some r => ([s!"clause=edits_keep_valid_utf8 kpos={r.bd.kpos} keys={bytesHex (c.keys.take r.bd.kpos)} text={bytesHex r.bd.text}"], bs.length)
   | none => ([], bs.length)
 
+/-- C04 at the vi level: every command that changes the text is one undo step.  A ghost zipper of the texts seen at
+    command boundaries judges every plain `u` and `^R`; the implementation alone is judged (options such as `ru`
+    are outside the model).  `none` in `past` = the judge lost track below this point (counts, `:` commands that
+    change the text, `U`-like keys). -/
+def judge04 (c : Case) : List String × Nat :=
+  let bs := c.impl.filter (fun r => r.mark == "B" || r.mark == "E" || r.mark == "Q")
+  match bs with
+  | [] => ([], 0)
+  | b0 :: rest =>
+    let step (acc : Bd × List (Option Bytes) × List Bytes × List String × Nat) (r : ImplBd) :=
+      let (prev, past, fut, errs, n) := acc
+      let ks := (c.keys.drop prev.kpos).take (r.bd.kpos - prev.kpos)
+      let next := r.bd
+      if ks == [117] then
+        match past with
+        | some t :: ps =>
+          let e := if next.text == t then [] else
+            [s!"clause=undo_one_step kpos={next.kpos} keys={bytesHex (c.keys.take next.kpos)} want={bytesHex t} got={bytesHex next.text}"]
+          (next, ps, prev.text :: fut, errs ++ e, n + 1)
+        | none :: _ => (next, [none], [], errs, n)
+        | [] =>
+          let e := if next.text == prev.text then [] else
+            [s!"clause=undo_nothing_to_undo kpos={next.kpos} keys={bytesHex (c.keys.take next.kpos)} text changed"]
+          (next, [], fut, errs ++ e, n + 1)
+      else if ks == [18] then
+        match fut with
+        | t :: fs =>
+          let e := if next.text == t then [] else
+            [s!"clause=redo_one_step kpos={next.kpos} keys={bytesHex (c.keys.take next.kpos)} want={bytesHex t} got={bytesHex next.text}"]
+          (next, some prev.text :: past, fs, errs ++ e, n + 1)
+        | [] => if next.text == prev.text then (next, past, fut, errs, n) else (next, [none], [], errs, n)
+      else if next.text == prev.text then
+        -- a motion or a `:` command that left the text alone is no step; any other command may have recorded a
+        -- step that changes nothing (`~` on an empty line, `x` on an empty line): the judge loses track
+        if ks.contains 58 || ks.all (fun k => [106, 107, 119, 98, 108, 104, 48, 36, 71, 94].contains k || (49 ≤ k && k ≤ 57)) then (next, past, fut, errs, n)
+        else (next, [none], [], errs, n)
+      else if ks.contains 58 || ks.contains 117 || ks.contains 18 || ks.contains 85 || ks.contains 64 then (next, [none], [], errs, n)
+      else (next, some prev.text :: past, [], errs, n)
+    let (_, _, _, errs, n) := rest.foldl step (b0.bd, [], [], [], 0)
+    (errs, n)
+
 /-- the stream judge: model correspondence plus the property's reference judgement -/
 def judge (mode : Nat) (kv : KV) : Verdict :=
   let base := ViD.judge 0 kv
@@ -410,7 +451,7 @@ def judge (mode : Nat) (kv : KV) : Verdict :=
     match c.impl.getLast? with
     | some r => if r.mark == "Q" then [] else [s!"clause=reaches_the_quit_it_is_given end={r.mark} kpos={r.bd.kpos} of {c.keys.length}"]
     | none => ["clause=reaches_the_quit_it_is_given no result"]
-  let (errs, n, m) := if mode == 5 then (quitErr, 0, 0) else if mode == 7 then (let (e, n) := judge07 c; (e, n, 0)) else if mode == 13 then judge13 c else if mode == 19 then (let (e, n) := judge19 c; (e, n, 0)) else if mode == 16 then (let (e, n) := judge16 c; (e, n, 0)) else ([], 0, 0)
+  let (errs, n, m) := if mode == 5 then (quitErr, 0, 0) else if mode == 7 then (let (e, n) := judge07 c; (e, n, 0)) else if mode == 13 then judge13 c else if mode == 19 then (let (e, n) := judge19 c; (e, n, 0)) else if mode == 16 then (let (e, n) := judge16 c; (e, n, 0)) else if mode == 4 then (let (e, n) := judge04 c; (e, n, 0)) else ([], 0, 0)
   -- C19: the screen update routines against Model/Screen.lean (a model-vs-code difference, not a spec failure)
   let (opDiffs, opCalls) : List String × Nat :=
     if mode != 19 then ([], 0) else
